@@ -23,6 +23,9 @@ fn main() {
     let cat = catalogue::catalogue();
     let budget = Budget { values: if thorough { 60 } else { 8 }, thorough };
     let mut g = Gen::new(seed);
+    if prop == "C04" || prop == "C16" {
+        ops::c04_corpus(&mut out);
+    }
     for e in &cat {
         let mut ge = g.fork();
         (e.run)(prop, &mut ge, &budget, &mut out);
